@@ -17,11 +17,14 @@ C16, second pass on the whole-function models of Pollard P-1 (Model/Pm1Impl.lean
     `pm1_stage2_polyeval` (now evaluated by the model: `expCheckPanics`) never fail; `pm1_polyeval_no_panic_partial`:
     `polyVals` has no panic (hypothesis: length of the model's baby list + 1 ≤ d2); `pm1_polyeval_no_panic`: the same
     from `pm1Deg d1 + 1 ≤ d2`.
+  * `pp1_stage1_block_no_panic`, `pp1_stage2_vals_no_panic`: the stage-1 loop of `pp1` over a sieve block and the
+    computation of the stage-2 products never panic.
   Still open: the gcd-chain property of `gpows`/`products` handed to `check_gcd_factors` (its `debug_assert!`s) across a
   ring shrink, hence no `pm1_impl_no_panic` for the whole function; the walk across sieve blocks (`walkOuter`); the
   composition of `pm1_found` with `from_roots` / the chirp-z convolution of `polyVals` (`pm1_polyeval_found`).
 -/
 import Ymq.Lemmas.Pp1Baby
+import Ymq.Lemmas.Pp1NoPanic
 import Ymq.Lemmas.Pm1Walk
 import Ymq.Lemmas.Pm1Baby
 import Ymq.Lemmas.Pm1Giant
@@ -279,5 +282,27 @@ theorem pm1_polyeval_no_panic {m g d1 d2 : Nat} (hm : 0 < m) (hg : g < m) (h6 : 
 
 example : (6 ∣ 30) ∧ (64 = 2 ^ Nat.log2 64) ∧ (56 ≤ 64) ∧ pm1Deg 30 + 1 ≤ 64 := by
   refine ⟨by decide, by decide +kernel, by decide, by decide +kernel⟩
+
+/-! ## P+1: panic sites never reached -/
+
+/-- **The stage-1 loop of `pp1` over a sieve block never panics**: for every ring modulus, every state, `b1 ≤ 2^32`
+(`factor()` passes `b1 < 4294967291`) and a block of numbers `2 ≤ p < 2^32` (`PrimeSieve` yields `u32` primes): the power
+loop `while pow * p < b1` neither overflows `u64` (checked profile) nor runs out of the model's fuel, and the Lucas
+ladder has no panic site. -/
+theorem pp1_stage1_block_no_panic (m : Nat) {b1 : Nat} (hb : b1 ≤ 2 ^ 32) (blk : List Nat) (s : Pp1Impl.S1)
+    (hblk : ∀ p ∈ blk, 2 ≤ p ∧ p < 2 ^ 32) : ∃ s', Pp1Impl.block m b1 blk s = some s' :=
+  Ymq.Pp1Impl.block_some m hb blk s hblk
+
+example : (Pp1Impl.block 77 4 [2, 3, 5, 7] { g := 5, gpowsRev := [1], pPrev := 1 }).map (fun s => (s.g, s.pPrev)) = some (9, 5) := by
+  decide +kernel
+
+/-- **The stage-2 products of `pp1` are computed without a panic** (`assert!(d1 % 6 == 0)`,
+`debug_assert!(gsteps.len() == d2)`): for every ring modulus and `g`, `6 ∣ d1`, `d2 ≥ 1` (every row of the table:
+`rows_ok`). -/
+theorem pp1_stage2_vals_no_panic (m g : Nat) {d1 d2 : Nat} (h6 : 6 ∣ d1) (hd2 : 1 ≤ d2) :
+    ∃ vals, Pp1Impl.stage2Vals m d1 d2 g = some vals :=
+  Ymq.Pp1Impl.stage2Vals_some m g h6 hd2
+
+example : (6 ∣ 6) ∧ (Pp1Impl.stage2Vals 77 6 2 3).isSome = true := ⟨by decide, by decide +kernel⟩
 
 end Ymq.C16
